@@ -142,6 +142,8 @@ size_t sim_heap_accounted_peak(void); /* highest cjet_get_alloc_size() seen at a
 
 /* descriptor table / hygiene */
 int sim_open_fds(void);
+void sim_set_fd_limit(int n, bool timers_only); /* like RLIMIT_NOFILE: timerfd_create (and accept, unless timers_only) fail with EMFILE while n descriptors are open; 0 = no limit */
+int sim_fd_limit_hits(void);   /* how often that happened */
 int sim_open_conn_cids(int *out, int max);          /* connections whose descriptor the daemon has not closed */
 void sim_open_fd_summary(char *buf, size_t len);      /* kinds of open descriptors, e.g. "connection+timerfd" */
 int sim_hygiene_count(void);
